@@ -6,6 +6,7 @@ import (
 	"fmt"
 	"go/token"
 	"go/types"
+	"sort"
 	"strings"
 
 	"golang.org/x/tools/go/ssa"
@@ -408,7 +409,14 @@ func checkTransportFactory(c *Ctx, r *Report) {
 			}
 		}
 		if !(guard && other == "") {
-			// nested selections (a shared case for two names, then an if/else between them): decide by the decision table
+			// nested selections (a shared case for two names, then an if/else between them): the set of type names that can
+			// reach the constructor call, by forward propagation over the comparisons of the type with constants
+			if vals := possibleStringsAt(ci.Parent(), typeParam, ci.Block(), []string{"system", "standard", "telnet", "file", "\x00other"}); len(vals) == 1 && vals[0] == name {
+				guard, other = true, ""
+			}
+		}
+		if !(guard && other == "") {
+			// ... or by the decision table
 			// of the enclosing function over the transport-type parameter
 			if tp, isParam := typeParam.(*ssa.Parameter); isParam {
 				host := ci.Parent()
@@ -503,4 +511,90 @@ func checkTransportFactory(c *Ctx, r *Report) {
 			typ+".openNetconf does not request the 'netconf' subsystem (or requests a shell/pty): a NETCONF session is not a transparent pipe to the NETCONF server")
 	}
 	_ = types.Typ
+}
+
+// possibleStringsAt: which values of the universe the string v can have on entry to block at, given the branches on
+// `v == constant` between the function's entry and that block (forward propagation to a fixpoint; other conditions
+// do not restrict).
+func possibleStringsAt(fn *ssa.Function, v ssa.Value, at *ssa.BasicBlock, universe []string) []string {
+	type set map[string]bool
+	all := set{}
+	for _, u := range universe {
+		all[u] = true
+	}
+	poss := map[*ssa.BasicBlock]set{}
+	if len(fn.Blocks) == 0 {
+		return nil
+	}
+	poss[fn.Blocks[0]] = all
+	edge := func(p *ssa.BasicBlock, si int) set {
+		in := poss[p]
+		if in == nil {
+			return nil
+		}
+		out := set{}
+		for k := range in {
+			out[k] = true
+		}
+		cond := ifCond(p)
+		cv, neg := unwrapNot(cond)
+		bo, ok := cv.(*ssa.BinOp)
+		if cond == nil || !ok || (bo.Op != token.EQL && bo.Op != token.NEQ) {
+			return out
+		}
+		var k string
+		if bo.X == v {
+			k, ok = constString(bo.Y)
+		} else if bo.Y == v {
+			k, ok = constString(bo.X)
+		} else {
+			return out
+		}
+		if !ok {
+			return out
+		}
+		equalOnThisEdge := (si == 0) == (bo.Op == token.EQL)
+		if neg {
+			equalOnThisEdge = !equalOnThisEdge
+		}
+		if equalOnThisEdge {
+			for u := range out {
+				if u != k {
+					delete(out, u)
+				}
+			}
+		} else {
+			delete(out, k)
+		}
+		return out
+	}
+	for iter := 0; iter < 50; iter++ {
+		changed := false
+		for _, b := range fn.Blocks {
+			for si, s := range b.Succs {
+				e := edge(b, si)
+				if e == nil {
+					continue
+				}
+				if poss[s] == nil {
+					poss[s] = set{}
+				}
+				for k := range e {
+					if !poss[s][k] {
+						poss[s][k] = true
+						changed = true
+					}
+				}
+			}
+		}
+		if !changed {
+			break
+		}
+	}
+	var out []string
+	for k := range poss[at] {
+		out = append(out, k)
+	}
+	sort.Strings(out)
+	return out
 }
